@@ -144,6 +144,24 @@ func (g *gCache) IncrBy(key string, d int64) (int64, error) {
 	return n, err
 }
 
+func (g *gCache) SetNX(key string, value any, ttl time.Duration) (bool, error) {
+	fail, t := g.s.enter(g.name)
+	act := fmt.Sprintf("setnx=%s=%d", decVal(value), int64(ttl))
+	if fail {
+		g.s.record(t, g.name, act, "fail")
+		return false, errInjected
+	}
+	b, err := g.inner.SetNX(key, value, ttl)
+	if err != nil {
+		g.s.record(t, g.name, act, "fail")
+	} else if b {
+		g.s.record(t, g.name, act, "b1")
+	} else {
+		g.s.record(t, g.name, act, "b0")
+	}
+	return b, err
+}
+
 func (g *gCache) Close() error { return nil }
 
 func okStr(err error) string {
